@@ -109,9 +109,9 @@ func (d *td) build(env map[string]*types.StructType) types.Type {
 	panic("bad td")
 }
 
-func tInt(b uint64) *td    { return &td{K: "int", Bits: b} }
-func tFlt(k string) *td    { return &td{K: "float", FK: k} }
-func tNamed(n string) *td  { return &td{K: "named", Name: n} }
+func tInt(b uint64) *td         { return &td{K: "int", Bits: b} }
+func tFlt(k string) *td         { return &td{K: "float", FK: k} }
+func tNamed(n string) *td       { return &td{K: "named", Name: n} }
 func tPtr(e *td, as uint64) *td { return &td{K: "ptr", Elem: e, AS: as} }
 
 // c16universe enumerates all descriptors of constructor depth <= depth.
